@@ -614,7 +614,7 @@ class InitUnit(Unit):
     mutants = (
         ('START emitted after the heartbeat thread is started', f'{FILTER}::Filter.init', 'self.emitter.emit_start(facets=facets)\n            self.emitter.start_lineage_heart_beat()', 'self.emitter.start_lineage_heart_beat()\n            self.emitter.emit_start(facets=facets)', 'C18.start_first'),
         ('obey policy ignored for error exits', f'{FILTER}::Filter.init', "if self.obey_exit & PROP_EXIT_FLAGS['error']:", "if True:", 'C08.obey'),
-        ('deadline is the interval, not now + interval', f'{FILTER}::Filter.init', 'self.exit_after_t = time() + exit_after', 'self.exit_after_t = exit_after', 'C08.exit_after'),
+        ('deadline is the interval, not now + interval', f'{FILTER}::Filter.init', 'self.exit_after_t = time.time() + exit_after', 'self.exit_after_t = exit_after', 'C08.exit_after'),
     )
 
     def __init__(self, props=('C08',)):
